@@ -25,6 +25,8 @@ pub enum Call {
     TryConnect(u8, u8, EV),
     Disconnect(u8, u8),
     Isolate(u8),
+    /// isolate the node, then release its LAST strong handle (the calling thread is its only owner)
+    IsolateDrop(u8),
     /// degrees, predicates, is_connected, find
     Query(u8),
     /// full bfs + dfs + preorder from the node
@@ -37,7 +39,7 @@ impl Call {
     pub fn operands(&self) -> Vec<u8> {
         match *self {
             Call::Connect(u, v, _) | Call::TryConnect(u, v, _) | Call::Disconnect(u, v) => vec![u, v],
-            Call::Isolate(u) | Call::Query(u) | Call::Traverse(u) => vec![u],
+            Call::Isolate(u) | Call::IsolateDrop(u) | Call::Query(u) | Call::Traverse(u) => vec![u],
         }
     }
     pub fn name(&self) -> &'static str {
@@ -46,6 +48,7 @@ impl Call {
             Call::TryConnect(..) => "try_connect",
             Call::Disconnect(..) => "disconnect",
             Call::Isolate(_) => "isolate",
+            Call::IsolateDrop(_) => "isolate+drop-last-handle",
             Call::Query(_) => "query",
             Call::Traverse(_) => "traverse",
         }
@@ -73,7 +76,8 @@ fn do_call<F: Flavour>(nodes: &[F::Node], c: Call) -> Ret {
             Ok(e) => Ret::Val(e),
             Err(_) => Ret::ErrNotFound,
         },
-        Call::Isolate(u) => {
+        Call::Isolate(u) | Call::IsolateDrop(u) => {
+            // (the release part of IsolateDrop is done by run_once, which owns the handles)
             F::isolate(&nodes[u as usize]);
             Ret::Unit
         }
@@ -191,7 +195,7 @@ fn model_apply(directed: bool, s: &State, c: Call) -> Vec<(State, Ret)> {
                 }
             }
         }
-        Call::Isolate(u) => {
+        Call::Isolate(u) | Call::IsolateDrop(u) => {
             let mut t = s.clone();
             for l in t.out.iter_mut() {
                 l.retain(|x| x.0 != u as Key);
@@ -397,6 +401,28 @@ where
     for &(u, v, e) in &sc.init {
         F::connect(&nodes[u as usize], &nodes[v as usize], e);
     }
+    // scenarios with IsolateDrop: every thread owns handles to its own operands only, the dropping thread is
+    // the only owner of the node it releases and the main thread keeps the other nodes for the final observation
+    let dropped: BTreeSet<u8> = sc.threads.iter().flatten().filter_map(|c| if let Call::IsolateDrop(u) = c { Some(*u) } else { None }).collect();
+    let has_drop = !dropped.is_empty();
+    let mut own: Vec<Option<(Vec<Option<F::Node>>, Vec<F::Node>)>> = vec![];
+    let main_nodes: Vec<Option<F::Node>> = (0..sc.n).map(|i| if dropped.contains(&(i as u8)) { None } else { Some(nodes[i].clone()) }).collect();
+    if has_drop {
+        for (ti, calls) in sc.threads.iter().enumerate() {
+            let ops: BTreeSet<u8> = calls.iter().flat_map(|c| c.operands()).collect();
+            for u in &ops {
+                if dropped.contains(u) {
+                    let droppers = sc.threads.iter().enumerate().filter(|(_, cs)| cs.iter().any(|c| c.operands().contains(u))).count();
+                    let last_use = calls.iter().rposition(|c| c.operands().contains(u)).unwrap();
+                    assert!(droppers == 1 && matches!(calls[last_use], Call::IsolateDrop(_)), "scenario invalid: node {} released by thread {} is used elsewhere or afterwards", u, ti);
+                }
+            }
+            let mine: Vec<Option<F::Node>> = (0..sc.n).map(|i| if ops.contains(&(i as u8)) { Some(nodes[i].clone()) } else { None }).collect();
+            let dummies: Vec<F::Node> = (0..sc.n).map(|i| F::new_node(200 + i as Key, NVal::plain(0))).collect();
+            own.push(Some((mine, dummies)));
+        }
+    }
+    let nodes: Arc<Vec<F::Node>> = if has_drop { Arc::new(vec![]) } else { nodes };
     let nt = sc.threads.len();
     while pool.tx.len() < nt {
         let more = Pool::new(1);
@@ -409,6 +435,7 @@ where
     for (ti, calls) in sc.threads.iter().enumerate() {
         let (sched, results, panics, nodes) = (sched.clone(), results.clone(), panics.clone(), nodes.clone());
         let calls = calls.clone();
+        let mut mine = if has_drop { own[ti].take() } else { None };
         let job: Job = Box::new(move || {
             let s2 = sched.clone();
             verif_hooks::install(Some(Rc::new(move |p: &dyn LockProbe, mode: Mode| {
@@ -418,10 +445,23 @@ where
             let r = catch_unwind(AssertUnwindSafe(|| {
                 sched.wait_turn(ti);
                 for c in calls {
-                    let r = do_call::<F>(&nodes, c);
+                    let r = match &mut mine {
+                        None => do_call::<F>(&nodes, c),
+                        Some((mine, dummies)) => {
+                            let tmp: Vec<F::Node> = mine.iter().enumerate().map(|(i, o)| o.clone().unwrap_or_else(|| dummies[i].clone())).collect();
+                            if let Call::IsolateDrop(u) = c {
+                                mine[u as usize] = None;
+                            }
+                            // for IsolateDrop `tmp` now holds the last strong handle: isolate, then release it
+                            let r = do_call::<F>(&tmp, c);
+                            drop(tmp);
+                            r
+                        }
+                    };
                     results.lock().unwrap()[ti].push(r);
                 }
             }));
+            drop(mine);
             verif_hooks::install(None);
             if let Err(e) = r {
                 if e.downcast_ref::<Abort>().is_none() {
@@ -483,7 +523,7 @@ where
     if !p.is_empty() {
         return (Outcome::Panic(p.join(" | ")), trace);
     }
-    let obs = catch_unwind(AssertUnwindSafe(|| State { out: nodes.iter().map(|x| F::out_list(x)).collect(), inc: nodes.iter().map(|x| F::in_list(x)).collect() }));
+    let obs = catch_unwind(AssertUnwindSafe(|| State { out: main_nodes.iter().map(|x| x.as_ref().map(|x| F::out_list(x)).unwrap_or_default()).collect(), inc: main_nodes.iter().map(|x| x.as_ref().map(|x| F::in_list(x)).unwrap_or_default()).collect() }));
     match obs {
         Err(_) => (Outcome::Poison, trace),
         Ok(m) => {
@@ -692,7 +732,7 @@ fn share_node(a: &Call, b: &Call) -> bool {
 /// nodes whose lists a call may touch (isolate also edits every neighbour's list)
 fn touched(sc: &Scenario, thread: usize, c: &Call) -> BTreeSet<u8> {
     let mut t: BTreeSet<u8> = c.operands().into_iter().collect();
-    if let Call::Isolate(u) = c {
+    if let Call::Isolate(u) | Call::IsolateDrop(u) = c {
         for &(a, b, _) in &sc.init {
             if a == *u {
                 t.insert(b);
@@ -800,6 +840,21 @@ where
                                 do_call_wide::<F>(&nodes, reader);
                             }
                         }
+                    } else if let Call::IsolateDrop(_) = writer.1 {
+                        // six fresh nodes linked to node 0 (operand 9 = "the fresh node"), then each is isolated and
+                        // its only handle released while the reader may be walking node 0's list
+                        let fresh: Vec<F::Node> = (0..6).map(|i| F::new_node(50 + i as Key, NVal::plain(0))).collect();
+                        for c in &fresh {
+                            match writer.0 {
+                                Call::Connect(9, _, e) => F::connect(c, &nodes[0], e),
+                                Call::Connect(_, _, e) => F::connect(&nodes[0], c, e),
+                                _ => {}
+                            }
+                        }
+                        for c in fresh {
+                            F::isolate(&c);
+                            drop(c);
+                        }
                     } else {
                         do_call::<F>(&nodes, writer.0);
                         do_call::<F>(&nodes, writer.1);
@@ -843,6 +898,11 @@ pub fn free_shapes() -> Vec<(Call, (Call, Call))> {
         v.push((reader, (Call::Connect(1, 0, 5), Call::Disconnect(1, 0))));
         v.push((reader, (Call::Connect(0, 0, 5), Call::Disconnect(0, 0))));
         v.push((reader, (Call::Connect(0, 2, 5), Call::Isolate(0))));
+    }
+    for reader in [Call::Query(0), Call::Traverse(0)] {
+        // fresh neighbours of node 0 that are isolated and then released (last handle dropped) by the writer
+        v.push((reader, (Call::Connect(0, 9, 5), Call::IsolateDrop(9))));
+        v.push((reader, (Call::Connect(9, 0, 5), Call::IsolateDrop(9))));
     }
     v
 }
@@ -1168,6 +1228,58 @@ pub fn run(ctx: &mut Ctx) {
         });
         ctx.stats.merge(part);
         ctx.stats.extra.insert("scenarios_one_mutator_vs_readers".into(), json!(nsc));
+    }
+
+    // ---- (b3) readers against one mutator that isolates nodes and releases their last handle
+    {
+        let inits3: Vec<Vec<(u8, u8, EV)>> = vec![
+            vec![(0, 1, 1), (0, 2, 2), (0, 3, 3)],
+            vec![(1, 0, 1), (2, 0, 2), (0, 3, 3)],
+            vec![(0, 1, 1), (1, 2, 2), (2, 0, 3), (0, 3, 4)],
+            vec![(0, 1, 1), (0, 1, 2), (1, 0, 3), (1, 1, 4)],
+        ];
+        let mutators: Vec<Vec<Call>> = vec![vec![Call::IsolateDrop(1)], vec![Call::IsolateDrop(1), Call::IsolateDrop(2)], vec![Call::Disconnect(0, 1), Call::IsolateDrop(1)], vec![Call::Connect(1, 3, 7), Call::IsolateDrop(1)], vec![Call::IsolateDrop(2), Call::Isolate(3)]];
+        let readers: Vec<Vec<Vec<Call>>> = vec![vec![vec![Call::Traverse(0)]], vec![vec![Call::Query(0), Call::Traverse(0)]], vec![vec![Call::Traverse(0)], vec![Call::Traverse(3)]], vec![vec![Call::Query(0)], vec![Call::Traverse(0)]]];
+        let mut scs: Vec<Scenario> = vec![];
+        for init in &inits3 {
+            for m in &mutators {
+                for r in &readers {
+                    let mut threads = vec![m.clone()];
+                    threads.extend(r.iter().cloned());
+                    scs.push(Scenario { n: 4, init: init.clone(), threads });
+                }
+            }
+        }
+        let nsc = scs.len();
+        let cap = tier.pick(400usize, 20_000usize);
+        let part = parallel(workers, |w| {
+            let mut st = Stats::new();
+            let mut pool = Pool::new(3);
+            for (i, sc) in scs.iter().enumerate() {
+                if i % workers != w {
+                    continue;
+                }
+                wd.tick();
+                macro_rules! go {
+                    ($F:ty) => {{
+                        let (execs, complete) = explore::<$F>(&mut pool, sc, cap, &mut st);
+                        if !complete {
+                            explore_random::<$F>(&mut pool, sc, 100, seed ^ (i as u64) << 9, &mut st);
+                        }
+                        st.class_n(&format!("executions.readers-vs-isolate-and-release.{}", <$F>::NAME), execs as u64);
+                        st.nontrivial(&(<$F>::NAME, sc));
+                        if i % 17 == 3 {
+                            st.sample_kind("readers-vs-isolate-and-release", 1, || json!({"scenario": sc, "schedules_explored": execs, "all_schedules": complete}));
+                        }
+                    }};
+                }
+                go!(SDi);
+                go!(SUn);
+            }
+            st
+        });
+        ctx.stats.merge(part);
+        ctx.stats.extra.insert("scenarios_readers_vs_isolate_and_release".into(), json!(nsc));
     }
 
     // ---- (c1) lock discipline: re-entrant reads, confirmed by the free-running tier
